@@ -67,6 +67,31 @@ def unsafe_query(q):
     return _SAFE_QUERY.match(q) is None
 
 
+def unsafe_value(entry_json, q):
+    """The same judged on the VALUES the query was built from (read from the entry at the paths the query names) instead
+    of on the query text: a query whose text carries a backslash although no value does is not excused.  None when the
+    entry or a path cannot be read."""
+    import json
+    import re
+    try:
+        entry = json.loads(entry_json)
+    except (TypeError, ValueError):
+        return None
+    paths = re.findall(r'(?:^| and )([A-Za-z_][A-Za-z0-9_.]*(?:\[\d+\][A-Za-z0-9_.]*)*) == ', q)
+    if not paths:
+        return None
+    for p in paths:
+        cur = entry
+        for seg in re.findall(r'[A-Za-z_][A-Za-z0-9_]*|\[\d+\]', p):
+            try:
+                cur = cur[int(seg[1:-1])] if seg.startswith("[") else cur[seg]
+            except (KeyError, IndexError, TypeError):
+                return None
+        if isinstance(cur, str) and any(ch in '"\\' or ord(ch) < 32 or ord(ch) == 127 for ch in cur):
+            return True
+    return False
+
+
 def collect_c16(ctx, fn):
     """Run a family's C11 share only to harvest its items (its own verdicts are not C16's)."""
     ctx.c16_stash = getattr(ctx, "c16_stash", [])
